@@ -28,6 +28,8 @@ type c08Case struct {
 	PreRenders int `json:"pre_renders,omitempty"`
 	// Touch: change the subject between signed renders
 	Touch bool `json:"touch,omitempty"`
+	// FailAt > 0: before (and between) the judged renders, one WriteTo goes into a sink that fails after FailAt bytes
+	FailAt int `json:"fail_at,omitempty"`
 }
 
 func c08Exec(r *vf.Run, k c08Case) []finding {
@@ -76,6 +78,9 @@ func c08Exec(r *vf.Run, k c08Case) []finding {
 		ks := 0
 		if ri < len(k.Ks) {
 			ks = k.Ks[ri]
+		}
+		if k.FailAt > 0 {
+			_, _ = vf.Guard(func() { _, _ = m.WriteTo(&faultSink{at: k.FailAt + ri*37}) })
 		}
 		if k.Touch && ri > 0 {
 			m.Subject(fmt.Sprintf("subject changed before render %d", ri+1))
@@ -282,6 +287,11 @@ func c08Specs(thorough bool) []c08Case {
 									}
 								}
 								// histories: unsigned render(s) first, then sign; change the subject between signed renders
+								if thorough || n%3 == 0 || mod == "none" {
+									for _, fa := range []int{1, 200, 600, 1500} {
+										cs = append(cs, c08Case{Spec: v, Renders: 2, Ks: []int{0, 0}, Mod: mod, FailAt: fa})
+									}
+								}
 								if thorough || n%4 == 0 || mod == "none" && n%2 == 0 {
 									cs = append(cs, c08Case{Spec: v, Renders: 2, Ks: []int{0, 0}, Mod: mod, PreRenders: 1})
 									cs = append(cs, c08Case{Spec: v, Renders: 2, Ks: []int{0, 0}, Mod: mod, PreRenders: 2, Touch: true})
@@ -301,7 +311,7 @@ func init() {
 	vf.Register(&vf.Check{
 		ID: "C08", Title: "S/MIME signatures verify for every message shape",
 		Run: func(r *vf.Run) {
-			r.SetRule("all 36 part/embed/attachment count combinations (0..3 × 0..2 × 0..2) × message encoding {QP, base64, 8bit} × file encoding {base64, 8bit, QP} with per-part encodings × modifier {none, part/file descriptions, no From, empty To list via ToIgnoreInvalid, generic header without values, two preformatted headers (one multi-line), long folded subject} × key {ECDSA P-256, RSA-2048} × {with, without intermediate certificate} × three consecutive renders × histories {signed from the start; 1–2 unsigned renders, then SignWithKeypair, then render; subject changed between signed renders} × map-iteration start 0..7 on the renders where map order matters, incl. a different order for the signed pre-rendering and the emission inside one WriteTo (switch after n = 1..14 iterations); every output is split by the harness' MIME reader and the PKCS#7 structure is verified by the harness' own CMS verifier (digest of the first part as emitted, signature over the DER SET of signed attributes, embedded certificates, protocol/micalg); distinct by (program, map starts)")
+			r.SetRule("all 36 part/embed/attachment count combinations (0..3 × 0..2 × 0..2) × message encoding {QP, base64, 8bit} × file encoding {base64, 8bit, QP} with per-part encodings × modifier {none, part/file descriptions, no From, empty To list via ToIgnoreInvalid, generic header without values, two preformatted headers (one multi-line), long folded subject} × key {ECDSA P-256, RSA-2048} × {with, without intermediate certificate} × three consecutive renders × histories {signed from the start; 1–2 unsigned renders, then SignWithKeypair, then render; subject changed between signed renders; a WriteTo into a sink failing after 1/200/600/1500 bytes before each judged render} × map-iteration start 0..7 on the renders where map order matters, incl. a different order for the signed pre-rendering and the emission inside one WriteTo (switch after n = 1..14 iterations); every output is split by the harness' MIME reader and the PKCS#7 structure is verified by the harness' own CMS verifier (digest of the first part as emitted, signature over the DER SET of signed attributes, embedded certificates, protocol/micalg); distinct by (program, map starts)")
 			r.Assume("content is in canonical CRLF form", "cmsverify is validated at start-up against OpenSSL-produced CMS signatures (RSA and ECDSA)")
 			if !mapseam.Enabled {
 				r.Incomplete("runtime map-iteration seam not available: map order is sampled")
